@@ -77,7 +77,7 @@ func generate(P *Program, con *FuncContract) (res *FuncResult) {
 			}
 		}
 		for _, s := range con.Sets {
-			if !g.setHits[s] {
+			if !g.setHits[s] && !s.Optional {
 				dead("set "+s.Ghost+" = "+s.Src, nil)
 			}
 		}
